@@ -17,5 +17,6 @@ CONSTANTS
   MaxSweep = 2
   MaxLeave = 0
   MaxPubB = 0
+  MaxCmd = 0
 INVARIANTS WholeUnits NoBlocking QueueBound
 VIEW FineView
